@@ -3,12 +3,31 @@
 use bacon_sci::optimize::{curve_fit, curve_fit_jac, linear_fit, CurveFitParams};
 use bverif::engine::*;
 use nalgebra::{DMatrix, DVector, SVector};
+use num_complex::Complex64 as C64;
 use proptest::prelude::*;
 use serde::{Deserialize, Serialize};
 use std::cell::Cell;
 
 #[derive(Clone, Debug, Serialize, Deserialize)]
 pub enum Case {
+    /// curve_fit_jac on complex data: model linear in 1-4 complex parameters (basis 0 polynomial / 1 trigonometric,
+    /// real abscissae), complex truth, start and noise
+    CurveComplex {
+        basis: u8,
+        nparam: usize,
+        xs: Vec<f64>,
+        truth: Vec<(f64, f64)>,
+        start: Vec<(f64, f64)>,
+        noise: Vec<(f64, f64)>,
+        noise_amp: f64,
+        tol: f64,
+        damping: f64,
+        mult: f64,
+        /// 0: arbitrary complex start; 1-3: noise-free data and start = truth + phase x (real vector), phase 1+i, 1-i, i:
+        /// every residual then has the same complex phase (sum r^2 is purely imaginary or negative while sum |r|^2 is not)
+        #[serde(default)]
+        phase_lock: u8,
+    },
     Linear {
         xs: Vec<f64>,
         slope: f64,
@@ -379,9 +398,94 @@ fn lcg_perm(n: usize, seed: u64) -> Vec<usize> {
     idx
 }
 
+fn complex_fit<const V: usize>(basis: u8, xs: &[C64], ys: &[C64], start: &[C64], prm: &CurveFitParams<C64>, calls: &Cell<usize>) -> Result<Result<Vec<C64>, String>, Caught> {
+    let b = move |x: C64| -> Vec<f64> { model_grad(basis, x.re, &vec![0.0; V]) };
+    let f = |x: C64, p: &SVector<C64, V>| -> C64 {
+        calls.set(calls.get() + 1);
+        if calls.get() > BUDGET {
+            budget_exceeded("model evaluations");
+        }
+        b(x).iter().zip(p.iter()).map(|(g, q)| q * *g).sum()
+    };
+    let jac = |x: C64, _p: &SVector<C64, V>| -> SVector<C64, V> { SVector::<C64, V>::from_iterator(b(x).into_iter().map(|g| C64::new(g, 0.0))) };
+    guard(|| curve_fit_jac::<C64, _, _, V>(f, xs, ys, start, jac, prm).map(|v| v.iter().cloned().collect()))
+}
+
+fn run_complex(case: &Case, mut o: Obs) -> Outcome {
+    let Case::CurveComplex { basis, nparam, xs, truth, start, noise, noise_amp, tol, damping, mult, phase_lock } = case else { unreachable!() };
+    let noise_amp = &(if *phase_lock != 0 { 0.0 } else { *noise_amp });
+    let basis = *basis % 2;
+    let v = (*nparam).clamp(1, 4);
+    let n = xs.len();
+    o.label("curve_fit_jac-complex-data");
+    o.label(MODEL_NAMES[basis as usize]);
+    let z = |p: &(f64, f64)| C64::new(p.0, p.1);
+    let pt: Vec<C64> = truth[..v].iter().map(z).collect();
+    let st: Vec<C64> = match phase_lock {
+        0 => start[..v].iter().map(z).collect(),
+        k => {
+            o.label("phase-locked-start");
+            let ph = [C64::new(1.0, 1.0), C64::new(1.0, -1.0), C64::new(0.0, 1.0)][(*k as usize - 1) % 3];
+            (0..v).map(|i| pt[i] + ph * (0.25 * start[i].0)).collect()
+        }
+    };
+    let g = |x: f64| model_grad(basis, x, &vec![0.0; v]);
+    let ys: Vec<C64> = (0..n).map(|i| g(xs[i]).iter().zip(pt.iter()).map(|(b, q)| q * *b).sum::<C64>() + z(&noise[i % noise.len()]) * *noise_amp).collect();
+    // reference: complex normal equations (the design matrix is real)
+    let j = DMatrix::<f64>::from_fn(n, v, |r, c| g(xs[r])[c]);
+    let jtj = j.transpose() * &j;
+    let lam = nalgebra::SymmetricEigen::new(jtj.clone()).eigenvalues.iter().cloned().fold(f64::INFINITY, f64::min);
+    let scaled = DMatrix::from_fn(v, v, |a, b| jtj[(a, b)] / (jtj[(a, a)] * jtj[(b, b)]).sqrt());
+    let mu = nalgebra::SymmetricEigen::new(scaled).eigenvalues.iter().cloned().fold(f64::INFINITY, f64::min);
+    if !(lam >= 1e-3) || !(mu >= 1e-5) {
+        return o.discard("design not well conditioned (lambda_min(J^T J) < 1e-3)");
+    }
+    let rhs_re = j.transpose() * DVector::from_fn(n, |i, _| ys[i].re);
+    let rhs_im = j.transpose() * DVector::from_fn(n, |i, _| ys[i].im);
+    let lu = jtj.clone().lu();
+    let (Some(pre), Some(pim)) = (lu.solve(&rhs_re), lu.solve(&rhs_im)) else { return o.discard("reference solve failed") };
+    let pstar: Vec<C64> = (0..v).map(|k| C64::new(pre[k], pim[k])).collect();
+    o.nontrivial = true;
+    if *noise_amp != 0.0 {
+        o.label("noisy");
+    }
+    let prm = CurveFitParams::<C64> { damping: *damping, tolerance: *tol, h: 1e-3, damping_mult: *mult };
+    let cxs: Vec<C64> = xs.iter().map(|x| C64::new(*x, 0.0)).collect();
+    let calls = Cell::new(0usize);
+    let res = match v {
+        1 => complex_fit::<1>(basis, &cxs, &ys, &st, &prm, &calls),
+        2 => complex_fit::<2>(basis, &cxs, &ys, &st, &prm, &calls),
+        3 => complex_fit::<3>(basis, &cxs, &ys, &st, &prm, &calls),
+        _ => complex_fit::<4>(basis, &cxs, &ys, &st, &prm, &calls),
+    };
+    o.set("model_calls", calls.get());
+    let pscale = 1.0 + pstar.iter().map(|x| x.norm()).fold(0.0, f64::max);
+    // same stopping-rule bound as the real case; for a model linear in its parameters the first damped step always
+    // improves, so the damping never exceeds its initial value
+    let bound = 10.0 * (tol / lam).sqrt() * (1.0 + damping / (2.0 * mu)).sqrt() + 1e-9 * pscale;
+    match res {
+        Err(Caught::Budget(_)) => o.fail(format!("complex data: does not terminate: more than {BUDGET} model evaluations")),
+        Err(Caught::Panic(m)) => o.fail(format!("complex data: panicked: {m}")),
+        Ok(Err(e)) => o.fail(format!("complex data: returned Err({e}) on a well-conditioned linear model")),
+        Ok(Ok(p)) => {
+            let e = p.iter().zip(pstar.iter()).map(|(a, b)| (a - b).norm_sqr()).sum::<f64>().sqrt();
+            o.set("ratio_err_jac_complex", e / bound);
+            if p.iter().all(|x| x.re.is_finite() && x.im.is_finite()) && e <= bound {
+                o.pass()
+            } else {
+                o.fail(format!("complex data: returned parameters {p:?}, least-squares solution {pstar:?}: distance {e:e} > {bound:e}"))
+            }
+        }
+    }
+}
+
 pub fn run_case(case: &Case) -> Outcome {
     let mut o = Obs::new();
+    if let Case::CurveComplex { .. } = case {
+        return run_complex(case, o);
+    }
     match case {
+        Case::CurveComplex { .. } => unreachable!(),
         Case::Linear { xs, slope, icpt, noise, noise_amp, perm_seed, mismatch, offset, spread_exp } => {
             o.label("linear_fit");
             let spread = 10f64.powf(*spread_exp);
@@ -665,15 +769,22 @@ fn strategy(_t: Tier) -> BoxedStrategy<Case> {
         (gen::logu(-12.0, -6.0), prop_oneof![3 => gen::logu(-2.0, 1.0), 1 => gen::logu(-4.0, -2.0)], gen::fl(1.1, 5.0), gen::logu(-4.0, -1.0), any::<bool>(), prop_oneof![12 => Just(0u8), 1 => 1u8..=4]),
     )
         .prop_map(|((model, nparam, xs), (truth, start, noise, noise_amp), (tol, damping, mult, h, fd, invalid))| Case::Curve { model, nparam, xs, truth, start, noise, noise_amp, tol, damping, mult, h, fd, invalid });
-    prop_oneof![1 => linear, 3 => curve].boxed()
+    let zc = || (gen::fl(-2.0, 2.0), gen::fl(-2.0, 2.0));
+    let ccurve = (
+        (0u8..2, 1usize..=4, xs_strategy(6, 40)),
+        (proptest::collection::vec(zc(), 4), proptest::collection::vec(zc(), 4), proptest::collection::vec((gen::fl(-1.0, 1.0), gen::fl(-1.0, 1.0)), 40), prop_oneof![1 => Just(0.0), 1 => gen::logu(-4.0, -2.0)]),
+        (gen::logu(-12.0, -6.0), gen::logu(-3.0, 1.0), gen::fl(1.1, 5.0), prop_oneof![2 => Just(0u8), 1 => 1u8..=3]),
+    )
+        .prop_map(|((basis, nparam, xs), (truth, start, noise, noise_amp), (tol, damping, mult, phase_lock))| Case::CurveComplex { basis, nparam, xs, truth, start, noise, noise_amp, tol, damping, mult, phase_lock });
+    prop_oneof![3 => linear, 9 => curve, 1 => ccurve].boxed()
 }
 
 pub fn run(opts: &Opts) -> i32 {
     let mut spec = Spec::new("C17", strategy, run_case);
     spec.cases = opts.tier.pick(6_000, 150_000);
-    spec.essential = vec![("linear_fit", 0.1), ("curve_fit_jac", 0.2), ("curve_fit", 0.2), ("noisy", 0.2), ("invalid", 0.03), ("gaussian", 0.05), ("logistic", 0.05), ("exponential", 0.05), ("noisy-replicated-abscissae", 0.05)];
+    spec.essential = vec![("linear_fit", 0.1), ("curve_fit_jac", 0.2), ("curve_fit", 0.2), ("noisy", 0.2), ("invalid", 0.03), ("gaussian", 0.05), ("logistic", 0.05), ("exponential", 0.05), ("noisy-replicated-abscissae", 0.05), ("curve_fit_jac-complex-data", 0.04)];
     spec.max_discard_frac = 0.2;
-    spec.rule = "generated: linear_fit on 3-60 stratified abscissae in [-2,2] (a third of all designs snapped to a grid of width 0.25/0.5/1, i.e. with replicated abscissae), exactly linear or noisy (10^[-4,-1]), permuted order, mismatched lengths, two fifths of the designs moved to offset + 10^[-1.5,1] x (offsets 10, -50, 2010 or U(-3000,3000): data far from the origin relative to their spread; allowances scale with kappa = sum x^2 / sum (x-mean)^2); curve_fit_jac / curve_fit on 6-60 abscissae with models linear in 1-4 parameters (polynomial and trigonometric bases, arbitrary starts in [-2,2]) and non-linear models a e^{bx}+c, gaussian, logistic (starts within 20% of the truth), noise 0 or 10^[-4,-2], tolerance 10^[-12,-6], damping 10^[-2,1] (a quarter of the cases 10^[-4,-2]: nearly Gauss-Newton), multiplier [1.1,5], h 10^[-4,-1]; designs with lambda_min(J^T J) < 1e-3, non-linear designs whose stopping-rule bound exceeds a tenth of the parameter scale, and non-linear designs whose least-squares solution lies further than a tenth of the parameter scale from the generating parameters, are discarded (counted); invalid: negative tolerance / h / damping, mismatched lengths. Oracle: normal equations, exact-linear reproduction, permutation invariance; model-call budget (termination); distance to the reference least-squares solution (harness Gauss-Newton with analytic Jacobian) <= 10 sqrt(tol/lambda_min) sqrt(1 + d/(2 mu_min)) + 1e-9 (d = final damping from the transliterated loop, mu_min = smallest eigenvalue of the diagonally scaled Gauss-Newton matrix) (+ 40 h^2 |r| term for finite differences); a failing curve_fit outcome that coincides with the harness's bug-compatible transliteration of the Levenberg-Marquardt loop (Jacobian = sum) is the recorded finding K1; a failing curve_fit_jac outcome on a non-linear model that coincides with the transliterated loop, in which that loop accepted a step raising the sum of squares, and which a safeguarded Levenberg-Marquardt iteration from the same start and damping solves, is the recorded finding K3. Non-trivial = non-linear model, noisy data or >= 3 parameters (linear_fit: noisy or >= 10 points). Distinct = distinct case JSON.".into();
+    spec.rule = "generated: linear_fit on 3-60 stratified abscissae in [-2,2] (a third of all designs snapped to a grid of width 0.25/0.5/1, i.e. with replicated abscissae), exactly linear or noisy (10^[-4,-1]), permuted order, mismatched lengths, two fifths of the designs moved to offset + 10^[-1.5,1] x (offsets 10, -50, 2010 or U(-3000,3000): data far from the origin relative to their spread; allowances scale with kappa = sum x^2 / sum (x-mean)^2); curve_fit_jac / curve_fit on 6-60 abscissae with models linear in 1-4 parameters (polynomial and trigonometric bases, arbitrary starts in [-2,2]) and non-linear models a e^{bx}+c, gaussian, logistic (starts within 20% of the truth), noise 0 or 10^[-4,-2], tolerance 10^[-12,-6], damping 10^[-2,1] (a quarter of the cases 10^[-4,-2]: nearly Gauss-Newton), multiplier [1.1,5], h 10^[-4,-1]; designs with lambda_min(J^T J) < 1e-3, non-linear designs whose stopping-rule bound exceeds a tenth of the parameter scale, and non-linear designs whose least-squares solution lies further than a tenth of the parameter scale from the generating parameters, are discarded (counted); invalid: negative tolerance / h / damping, mismatched lengths; one case in thirteen is curve_fit_jac on complex data (model linear in 1-4 complex parameters, complex noise; a third of them noise-free with a start that differs from the truth by a common complex phase 1+i, 1-i or i times a real vector) against the complex normal equations. Oracle: normal equations, exact-linear reproduction, permutation invariance; model-call budget (termination); distance to the reference least-squares solution (harness Gauss-Newton with analytic Jacobian) <= 10 sqrt(tol/lambda_min) sqrt(1 + d/(2 mu_min)) + 1e-9 (d = final damping from the transliterated loop, mu_min = smallest eigenvalue of the diagonally scaled Gauss-Newton matrix) (+ 40 h^2 |r| term for finite differences); a failing curve_fit outcome that coincides with the harness's bug-compatible transliteration of the Levenberg-Marquardt loop (Jacobian = sum) is the recorded finding K1; a failing curve_fit_jac outcome on a non-linear model that coincides with the transliterated loop, in which that loop accepted a step raising the sum of squares, and which a safeguarded Levenberg-Marquardt iteration from the same start and damping solves, is the recorded finding K3. Non-trivial = non-linear model, noisy data or >= 3 parameters (linear_fit: noisy or >= 10 points). Distinct = distinct case JSON.".into();
     spec.assumptions = vec!["reference least-squares solution by Gauss-Newton from the generating parameters".into(), "bug-compatible LM transliteration tracks the implementation bit-for-bit (same nalgebra calls)".into()];
     spec.max_shrink_iters = 400;
     run_spec(spec, opts)
